@@ -4,6 +4,7 @@ package main
 
 import (
 	"context"
+	"errors"
 	"fmt"
 	"strings"
 	"time"
@@ -29,6 +30,10 @@ func okErrOrErrResultMenu(i, k int) []answer {
 func fbOkOrErr(i int) []answer { return []answer{{val: 2000 + i}, {err: fbErrTable[i]}} }
 
 var postX = []answer{{action: "x"}}
+
+// postXOrErr: post may also fail (the run then fails with that error)
+var errBatchPost = errors.New("batch-post-failed")
+var postXOrErr = []answer{{action: "x"}, {err: errBatchPost}}
 
 var ctxWrapErrs = func() []error {
 	var l []error
@@ -60,7 +65,9 @@ func genC06(tier string) []Scenario {
 	th := tier == "thorough"
 	add := func(sc batchScn) {
 		sc.chkPositional = true
-		sc.postMenu = postX
+		if sc.postMenu == nil {
+			sc.postMenu = postX
+		}
 		sc.budget = 1
 		out = append(out, sc.scenario())
 	}
@@ -140,6 +147,17 @@ func genC06(tier string) []Scenario {
 	add(batchScn{name: "positional-runs-of-different-size items=2,1 c=2 exec=ok|err", n: 2, nByRun: []int{2, 1}, c: 2, shape: shResults, yield: true, execMenu: okOrErrMenu, bound: 0, runs: 2})
 	if th {
 		add(batchScn{name: "positional-runs-of-different-size items=3,1,2 c=2 exec=ok|err", n: 3, nByRun: []int{3, 1, 2}, c: 2, shape: shResults, yield: true, execMenu: okOrErrMenu, bound: 0, runs: 3})
+	}
+	// ... after a first run that ended badly: an item failed AND post failed (both modes)
+	for _, c := range []int{0, 2} {
+		for _, stop := range []bool{false, true} {
+			add(batchScn{name: fmt.Sprintf("positional-rerun-after-failed-run n=2 c=%d stop=%v exec=ok|err post=ok|err", c, stop), n: 2, c: c, stop: stop, shape: shResults, yield: c > 0, execMenu: okOrErrMenu, postMenu: postXOrErr, bound: 0, runs: 2})
+		}
+	}
+	// ... and a pipeline that feeds a run's results straight back in as the next run's items
+	// (the very slice post received): items and results must stay two different things
+	for _, c := range []int{0, 2} {
+		add(batchScn{name: fmt.Sprintf("positional-results-fed-back-as-items n=2 c=%d runs=3", c), n: 2, c: c, shape: shResults, yield: c > 0, execMenu: okMenu, bound: 0, runs: 3, feedback: true})
 	}
 	// a context deadline that passes while items are executing (each takes 1 s of virtual time)
 	for _, c := range []int{1, 2} {
@@ -552,7 +570,9 @@ func genC11(tier string) []Scenario {
 	}
 	add := func(sc batchScn) {
 		sc.chkCancel = true
-		sc.postMenu = postX
+		if sc.postMenu == nil {
+			sc.postMenu = postX
+		}
 		sc.shape = shResults
 		out = append(out, sc.scenario())
 	}
@@ -611,6 +631,14 @@ func genC11(tier string) []Scenario {
 	for _, c := range []int{0, 2} {
 		for _, stop := range []bool{false, true} {
 			add(batchScn{name: fmt.Sprintf("cancel-with-cause n=2 c=%d stop=%v", c, stop), n: 2, c: c, stop: stop, budget: 1, yield: c > 0, execMenu: okMenu, bound: 1, withCause: true, cancel: cancelSpec{kind: 1, lazy: true}})
+		}
+	}
+	// the same node object after a run that ended badly (an item failed, post failed): the next
+	// run, cancelled before it starts or from inside an item, is judged like any other
+	for _, c := range []int{0, 2} {
+		for _, stop := range []bool{false, true} {
+			add(batchScn{name: fmt.Sprintf("cancel-rerun-after-failed-run n=2 c=%d stop=%v before-run", c, stop), n: 2, c: c, stop: stop, budget: 1, execMenu: okOrErrMenu, postMenu: postXOrErr, bound: 0, runs: 2, cancelFromRun: 1, cancel: cancelSpec{kind: 1, before: true}})
+			add(batchScn{name: fmt.Sprintf("cancel-rerun-after-failed-run n=2 c=%d stop=%v lazy", c, stop), n: 2, c: c, stop: stop, budget: 1, execMenu: okOrErrMenu, postMenu: postXOrErr, bound: 0, runs: 2, cancelFromRun: 1, cancel: cancelSpec{kind: 1, lazy: true}})
 		}
 	}
 	// more items than workers + queue: the submitter itself is blocked while the workers sit in a
